@@ -6,7 +6,7 @@
 From DV Require Import Base.Prelude Model.NameM Model.TokM Model.RdTextM.
 From DV Require Import Proofs.NameValid Proofs.NameOrder Proofs.NameText.
 From DV Require Import Proofs.TokEsc Proofs.TokTxt Proofs.TokWords Proofs.TokDec Proofs.TokHex
-     Proofs.TokShape Proofs.TokGeneric Proofs.TokUtf8 Proofs.RdTextName Proofs.RdTextAddr Proofs.RdTextBitmap Proofs.RdTextTypes Proofs.RdTextB32 Proofs.RdTextSig Proofs.RdTextEui Proofs.RdTextFmtHex Proofs.RdText Proofs.RdTextRel.
+     Proofs.TokShape Proofs.TokGeneric Proofs.TokUtf8 Proofs.RdTextName Proofs.RdTextAddr Proofs.RdTextBitmap Proofs.RdTextTypes Proofs.RdTextB32 Proofs.RdTextSig Proofs.RdTextEui Proofs.RdTextFmtHex Proofs.RdText Proofs.RdTextRel Proofs.RdTextWire.
 Open Scope Z_scope.
 
 (* ------------------------------------------------------------------ character-strings *)
@@ -110,15 +110,12 @@ Theorem chunked_text_roundtrip : forall w chunk sep rest allow_empty,
   exists te st, is_eol_or_eof te = true /\ ungot st = Some te /\
     concatenate_remaining_identifiers (mkSt (wordbreak w chunk sep ++ rest) 0%nat false None) allow_empty
     = Ok (w, st).
-Proof.
-  intros w chunk sep rest ae Hw Hs Hr Hne.
-  apply concatenate_chunked; [apply wordbreak_chunked; assumption|exact Hr|exact Hne].
-Qed.
+Proof. exact chunked_wordbreak_roundtrip. Qed.
 Print Assumptions chunked_text_roundtrip.
 
 Theorem hex_and_base64_alphabets_are_safe : forall d, all_bytes d = true ->
   forallb safe (hexlify d) = true /\ forallb safe (b64encode d) = true.
-Proof. intros d H. split; [apply (hexlify_safe d H)|apply (b64encode_safe d H)]. Qed.
+Proof. exact alphabets_safe. Qed.
 Print Assumptions hex_and_base64_alphabets_are_safe.
 
 (* ------------------------------------------------------------------ address text (dns/ipv4.py, dns/ipv6.py) *)
@@ -304,13 +301,7 @@ Print Assumptions text_roundtrip_schema.
 
 (* every schema of the table is well-formed *)
 Theorem schema_table_wf : forall rdtype fs, schema_of rdtype = Some fs -> schema_wf fs.
-Proof.
-  intros rdtype fs. unfold schema_of.
-  repeat match goal with
-         | |- (if ?b then _ else _) = _ -> _ => destruct b; [intros H; inversion H; subst; cbn; tauto|]
-         end.
-  discriminate.
-Qed.
+Proof. exact schema_table_wf_all. Qed.
 Print Assumptions schema_table_wf.
 
 (* the two together, per record type of the table: no side condition on the schema is left, and the
@@ -320,10 +311,7 @@ Theorem text_roundtrip_every_schema_type : forall rdtype fs sty c vs text vs' re
   Forall2 val_ok fs vs -> style_ok sty -> (rest = [] \/ exists r, rest = 10 :: r) ->
   record_to_text sty fs vs = Ok text -> expects sty c fs vs = Ok vs' -> schema_chk rdtype vs' = Ok tt ->
   record_from_text_gen fw tw c fs (schema_chk rdtype) (text ++ rest) = Ok vs'.
-Proof.
-  intros rdtype fs sty c vs text vs' rest fw tw Hs Hv Hst Hr Hp He Hc.
-  exact (record_roundtrip sty c fs (schema_chk rdtype) vs text vs' rest fw tw (schema_table_wf rdtype fs Hs) Hv Hst Hr Hp He Hc).
-Qed.
+Proof. exact record_roundtrip_type. Qed.
 Print Assumptions text_roundtrip_every_schema_type.
 
 (* names printed and parsed without any origin: exactly the same values *)
@@ -465,13 +453,21 @@ Proof. vm_compute. repeat split; reflexivity. Qed.
 
 (* ------------------------------------------------------------------ accepted from text => encodable *)
 
-(* every field value returned by from_text lies in the range of its wire field (struct.pack cannot
-   fail), and every name satisfies the DNS length limits.  Partial: the hand-written types (LOC,
-   GPOS, WKS, APL, SVCB, ...) are covered by the oracle only. *)
-Theorem text_then_wire_partial : forall c f st raw st' v,
-  parse_field c f st = Ok (raw, st') -> ctor_field f raw = Ok v -> val_encodable f v.
-Proof. exact parse_field_encodable. Qed.
-Print Assumptions text_then_wire_partial.
+(* whatever cls.from_text (token phase, constructor conversions and checks, cross-field checks) returns for
+   a type of the table satisfies, field by field, the conditions under which the type's _to_wire cannot
+   fail: integers within their struct.pack format, counted strings <= 255 octets (<= 65535 where the
+   length field has two octets), names within the DNS limits, addresses and formatted-hex texts that the
+   encoder converts again, bitmap windows 0..255 with 1..32 octets, gateway forms matching their type.
+   For every field kind of the language, hence for all types of schema_of. *)
+Theorem text_then_wire : forall c fs chk st vs st',
+  class_from_text c fs chk st = Ok (vs, st') -> Forall2 wire_ok fs vs.
+Proof. exact class_from_text_wire. Qed.
+Print Assumptions text_then_wire.
+
+Theorem text_then_wire_field : forall c f st raw st' v,
+  parse_field c f st = Ok (raw, st') -> ctor_field f raw = Ok v -> wire_ok f v.
+Proof. exact parse_field_wire. Qed.
+Print Assumptions text_then_wire_field.
 
 Theorem name_from_text_valid : forall c t n, as_name c t = Ok n -> Valid n.
 Proof. exact as_name_valid. Qed.
@@ -484,8 +480,5 @@ Print Assumptions name_from_text_valid.
 Theorem empty_rest_field_refuted :
   exists fs vs text, schema_of 44 = Some fs /\ record_to_text (mkStyle None false 128 [32] 32 [32] false) fs vs = Ok text /\
     record_from_text (mkPctx None true None) fs (schema_chk 44) (text ++ [10]) <> Ok vs.
-Proof.
-  exists [u8; u8; FHexRest], [VInt 1; VInt 1; VBytes []], [49; 32; 49; 32].
-  split; [reflexivity|]. split; [reflexivity|]. vm_compute. discriminate.
-Qed.
+Proof. exact empty_rest_refuted. Qed.
 Print Assumptions empty_rest_field_refuted.
